@@ -758,3 +758,62 @@ def t_cpp_unwrap(facts, res, tier):
             res.inst("%s#%d" % (key, idx), True, {"class": cls or "UNSAFE", "where": facts.where(fn, n)})
             if cls is None:
                 res.fail(key, facts.where(fn, n), "%s: unwrap() can panic on input: %s" % (fn["name"], why), {"receiver": rt[:120]})
+
+
+# ----------------------------------------------------------------------------- C01 / C15 (flag knowledge at joins)
+
+
+FLAGS_JOIN_EXCEPTIONS = {
+    "T-FLAGS-JOIN:generate_plusplus:.ifend":
+        "both edges into this label (`BNE .ifend` after INC of the low byte, and the fall-through after INC of the high byte) are emitted by "
+        "generate_plusplus itself, two lines above; what N/Z mean at the join is evaluated for all 65536 values by T-FLAGS-VALUE "
+        "(Z describes the 16-bit value; the N part of the claim is a recorded finding there)",
+}
+
+
+@rule("T-FLAGS-JOIN", floor=10,
+      text="a label is a join: control reaches it from every branch that names it, each with its own N/Z.  label() therefore forgets the flag "
+           "knowledge (T-LABEL-KILL), and nothing may put specific knowledge back before an instruction that establishes it has been emitted: "
+           "an assignment of `flags` to anything but Unknown directly after a label (e.g. from a snapshot taken when the condition had been "
+           "evaluated) is only true for one of the branches that reach the label")
+def t_flags_join(facts, res, tier):
+    import genmodel
+    from walker import EnumV, Sym
+    seen = {}
+    for fn in genmodel.gen_fns(facts):
+        if fn["name"] == "new":
+            continue
+        try:
+            paths = genmodel.fn_paths(facts, fn)
+        except Exception:
+            continue
+        for kind, val, st in paths:
+            after_label = None
+            for ev in st.events:
+                k = ev["kind"]
+                if k == "label":
+                    after_label = ev
+                    key = "T-FLAGS-JOIN:%s:%s" % (fn["name"], re.sub(r"\{\}.*$", "", str(getattr(ev["args"][0], "template", "label"))) if ev["args"] else "label")
+                    if key not in seen:
+                        seen[key] = None
+                elif k in ("asm", "sasm", "sasm_protected", "call", "inline", "push_code", "asm_save_y", "asm_restore_y"):
+                    after_label = None
+                elif k == "set" and ev["field"] == "flags" and after_label is not None:
+                    v = ev["value"]
+                    unknown = isinstance(v, EnumV) and v.variant == "Unknown"
+                    if not unknown:
+                        lab = after_label["args"][0] if after_label["args"] else None
+                        key = "T-FLAGS-JOIN:%s:%s" % (fn["name"], re.sub(r"\{\}.*$", "", str(getattr(lab, "template", "label"))))
+                        seen[key] = (fn, ev["node"], expr_text(ev["node"]))
+                    after_label = None
+    for key, bad in sorted(seen.items()):
+        res.inst(key, True)
+        if bad and key in FLAGS_JOIN_EXCEPTIONS:
+            res.note("exception %s: %s" % (key, FLAGS_JOIN_EXCEPTIONS[key]))
+            continue
+        if bad:
+            fn, node, txt = bad
+            res.fail(key, facts.where(fn, node),
+                     "%s assigns flag knowledge right after a label without emitting an instruction that establishes it (`%s`): the label is also reached "
+                     "by branches taken with other flags (for `if (a && b) .. else ..` the else label is reached from the test of a and from the test of b), "
+                     "so code after it that relies on the knowledge omits a needed load or compare" % (fn["name"], txt[:60]))
